@@ -31,6 +31,11 @@ def main():
             pf = os.path.join(d, "patch.diff")
             touched = set(re.findall(r"^\+\+\+ b/(\S+)", open(pf).read(), re.M))
             targets = [p["id"] for p in props if touched & set(p["anchors"]["files"])]
+            if os.environ.get("NEUTRAL_OWN_ONLY"):
+                own = name.split("-")[0]
+                targets = [t for t in targets if t == own] or [own]
+            if os.environ.get("NEUTRAL_ONLY"):
+                targets = [t for t in targets if t in os.environ["NEUTRAL_ONLY"].split(",")]
             meta = json.load(open(os.path.join(d, "meta.json")))
             done = meta.get("checks", {})
             sh(["git", "checkout", "--", "."], cwd=wt)
